@@ -411,6 +411,15 @@ def h_container(cx, rational, scenario):
         f.add(fresh(c1))
         f.add(fresh(c2))
         compare(cx, 'after_sample_size', agg(mc), agg(f))
+    elif scenario == 'deepcopy':
+        mc.add(c2)
+        a0 = agg(mc)
+        cp = copy.deepcopy(mc)
+        compare(cx, 'copy_equals_source', agg(cp), a0)
+        m_ctrlpts_prop(cx, cp[0], 'e')
+        compare(cx, 'source_unchanged', agg(mc), a0)
+        geo.M('operations').translate(cp, cx.reals('tt', 2), inplace=True)
+        cx.eq('source_element_unchanged', [list(p) for p in mc[0].ctrlpts], [list(p) for p in c1.ctrlpts])
     elif scenario == 'add_list':
         mc.add([c2])
         compare(cx, 'after_add_list', agg(mc), agg(fresh_container([c1, c2])))
@@ -441,7 +450,7 @@ def instances(tier):
             if applicable(m, sp):
                 out.append(inst('%s bbox [%s]' % (spec_name(sp), m), h_bbox, timeout=1200, sp=sp, mut=m))
     for rational in (False, True):
-        for sc in ('add', 'edit_element', 'sample_size', 'add_list'):
+        for sc in ('add', 'edit_element', 'sample_size', 'add_list', 'deepcopy'):
             out.append(inst('container %s %s' % ('rat' if rational else 'nonrat', sc), h_container, timeout=900, rational=rational, scenario=sc))
     if not quick:
         pair_muts = ['ctrlpts=', 'weights=', 'ctrlptsw=', 'knotvector=', 'sample_size=', 'insert_knot', 'remove_knot', 'refine_knotvector',
